@@ -1,6 +1,7 @@
 package props
 
 import (
+	"errors"
 	"bytes"
 	"context"
 	"encoding/binary"
@@ -20,6 +21,7 @@ import (
 	"pgregory.net/rapid"
 
 	"verifharness/evid"
+	"verifharness/sim"
 	"verifharness/wire"
 )
 
@@ -823,6 +825,9 @@ type c11cCase struct {
 	IncLen int      `json:"inc_len,omitempty"`
 	Batch  bool     `json:"batch,omitempty"`
 	Scan   scanCase `json:"scan,omitempty"`
+	// Kind "metacorrupt": a region that is in use has to be looked up again (it answers NotServingRegion
+	// once) and the next len(Infos) hbase:meta answers carry these bytes as its info:regioninfo value
+	Infos []evid.B `json:"infos,omitempty"`
 }
 
 func c11cRun(c c11cCase) (out Outcome) {
@@ -836,7 +841,11 @@ func c11cRun(c c11cCase) (out Outcome) {
 		return o
 	}
 	var o Outcome
-	res := inBubble(theT, func() { o = c11cIncInBubble(c) })
+	run := c11cIncInBubble
+	if c.Kind == "metacorrupt" {
+		run = c11cMetaInBubble
+	}
+	res := inBubble(theT, func() { o = run(c) })
 	if so, stuck := stuckVerdict(res); stuck {
 		return so
 	}
@@ -883,17 +892,80 @@ func c11cIncInBubble(c c11cCase) (out Outcome) {
 	return out
 }
 
+func c11cMetaInBubble(c c11cCase) (out Outcome) {
+	l := layoutSpec{Table: "t", NServers: 2}
+	cl := l.build()
+	client := newSimClient(cl)
+	defer func() {
+		client.Close()
+		drainClient()
+		cl.Stop()
+	}()
+	if err, cerr := doOp(client, context.Background(), "t", opSpec{Kind: "get", Key: evid.B("row"), Marker: "mkfirst"}); err != nil || cerr != nil {
+		return viol("harness", "first get: %v %v", err, cerr)
+	}
+	cl.Lock()
+	for _, r := range cl.Regions {
+		if r.Table == "t" {
+			r.Transient = append(r.Transient, sim.Exc{Class: sim.NSRE})
+		}
+	}
+	for _, b := range c.Infos {
+		cl.MetaCorrupt = append(cl.MetaCorrupt, append([]byte{}, b...))
+	}
+	cl.Unlock()
+	ctx, cancel := context.WithTimeout(context.Background(), 10*time.Minute)
+	defer cancel()
+	// (a panic of a background goroutine of the client ends the process: the driver turns that into a
+	// finding from the journal)
+	err, cerr := doOp(client, ctx, "t", opSpec{Kind: "get", Key: evid.B("row"), Marker: "mksecond"})
+	if cerr != nil {
+		return viol("foreign-response", "%v", cerr)
+	}
+	if err != nil {
+		// an error to the caller is acceptable (C11: result or error); hanging until the deadline is not
+		if errors.Is(err, context.DeadlineExceeded) {
+			return viol("lookup-never-recovers", "hbase:meta served %d malformed region-info values and sane ones afterwards; the request was still failing 10 virtual minutes later: %v", len(c.Infos), err)
+		}
+		out.Labels = append(out.Labels, "error_to_caller")
+	}
+	out.NonTrivial = true
+	out.Labels = append(out.Labels, "malformed_regioninfo_during_reestablishment")
+	return out
+}
+
 func TestC11_ClientDecoders(t *testing.T) {
 	theT = t
 	rec := evid.New("C11", "TestC11_ClientDecoders",
 		"rapid: decoding that happens in the CALLER's goroutine. (a) whole client against the simulated cluster: an Increment whose "+
 			"answer carries a counter cell of 0..12 bytes (8 is well-formed) - error, never a panic; (b) the real scanner against the "+
 			"model server of C06 which additionally sends zero-cell partial results ahead of a row's first fragment (structurally valid, "+
-			"inconsistent with the data) - the C06 oracle still holds and nothing panics. Non-trivial = every case except the "+
+			"inconsistent with the data) - the C06 oracle still holds and nothing panics; (c) a region in use has to be re-established and "+
+			"hbase:meta serves 1..3 malformed info:regioninfo values (empty, 1..3 bytes, wrong magic, garbage protobuf) before sane ones - "+
+			"no goroutine of the client panics and the request recovers or fails, it does not hang. Non-trivial = every case except the "+
 			"well-formed increment; distinct by case hash")
 	Drive(t, rec, true, func(t *rapid.T) c11cCase {
-		if rapid.IntRange(0, 4).Draw(t, "inc") == 0 {
+		switch rapid.IntRange(0, 5).Draw(t, "what") {
+		case 0:
 			return c11cCase{Kind: "increment", IncLen: rapid.IntRange(0, 12).Draw(t, "len")}
+		case 1:
+			c := c11cCase{Kind: "metacorrupt"}
+			n := rapid.IntRange(1, 3).Draw(t, "ninfos")
+			for i := 0; i < n; i++ {
+				switch rapid.IntRange(0, 4).Draw(t, "shape") {
+				case 0:
+					c.Infos = append(c.Infos, evid.B{})
+				case 1:
+					c.Infos = append(c.Infos, evid.B(rapid.SliceOfN(rapid.Byte(), 1, 3).Draw(t, "short")))
+				case 2:
+					c.Infos = append(c.Infos, evid.B("XBUF\x08\x01"))
+				case 3:
+					c.Infos = append(c.Infos, append(evid.B("PBUF"), rapid.SliceOfN(rapid.Byte(), 0, 12).Draw(t, "garbage")...))
+				default:
+					c.Infos = append(c.Infos, evid.B(rapid.SliceOfN(rapid.Byte(), 4, 30).Draw(t, "raw")))
+				}
+			}
+			return c
 		}
 		sc := scanCase{Spec: scanSpecGen(t), End: scanEnding{Kind: "exhaust"}}
 		sc.Spec.EmptyFirst = true
